@@ -94,6 +94,7 @@ class Client:
         self.auth_ok = False
         self.server_params = {}
         self.dead = False
+        self.send_error = None
         if connect:
             self.connect()
 
@@ -150,7 +151,12 @@ class Client:
 
     # ---- io
     def send(self, data):
-        self.sock.sendall(data)
+        """Send bytes; a connection the peer has already closed is remembered in `dead`, not raised."""
+        try:
+            self.sock.sendall(data)
+        except (BrokenPipeError, ConnectionResetError, ssl.SSLError) as e:
+            self.dead = True
+            self.send_error = repr(e)
 
     def read_one(self, timeout=None):
         self.sock.settimeout(timeout if timeout is not None else self.timeout)
